@@ -69,9 +69,32 @@ func diffWordsToRunes(doc *indexedDocument, start, end int) []rune {
 	runes := make([]rune, 0, end-start)
 
 	for _, t := range doc.Tokens[start:end] {
-		runes = append(runes, rune(t.ID))
+		runes = append(runes, idToRune(t.ID))
 	}
 	return runes
+}
+
+// go-diff converts the rune slices to strings and back, which turns the
+// surrogate code points U+D800..U+DFFF into U+FFFD. Token IDs from that range
+// on are shifted past it, so that distinct words remain distinct runes once
+// the dictionary holds more than 55295 words.
+const (
+	surrogateMin = 0xD800
+	surrogateMax = 0xDFFF
+)
+
+func idToRune(id tokenID) rune {
+	if id >= surrogateMin {
+		return rune(id) + (surrogateMax - surrogateMin + 1)
+	}
+	return rune(id)
+}
+
+func runeToID(r rune) tokenID {
+	if r > surrogateMax {
+		return tokenID(r) - (surrogateMax - surrogateMin + 1)
+	}
+	return tokenID(r)
 }
 
 // diffRunesToWords rehydrates the text in a diff from a string of word hashes to real words of text.
@@ -82,7 +105,7 @@ func diffRunesToWords(diffs []diffmatchpatch.Diff, dict *dictionary) []diffmatch
 		var sb strings.Builder
 
 		for i, r := range chars {
-			sb.WriteString(dict.getWord(tokenID(r)))
+			sb.WriteString(dict.getWord(runeToID(r)))
 			if (i + 1) < len(chars) {
 				sb.WriteByte(' ')
 			}
